@@ -1099,10 +1099,14 @@ def guard_label(g, nid, ignore=()):
     if not gs:
         return "unconditional"
     # innermost = the dominating test closest to the node (largest line number below the node)
-    line = g.nodes[nid].line
+    from sa.core import positions
+    _pos = positions(g.fn) if hasattr(g, "fn") else {}
+    me = g.nodes[nid].ast
+    line = _pos.get(id(me), g.nodes[nid].line) if me is not None else g.nodes[nid].line
     best = None
     for t, lab in gs:
-        if t.lineno <= line and (best is None or t.lineno >= best[0].lineno):
+        pt = _pos.get(id(t), t.lineno)
+        if pt <= line and (best is None or pt >= _pos.get(id(best[0]), best[0].lineno)):
             best = (t, lab)
     t, lab = best or gs[-1]
     return ("" if lab == "true" else "not ") + short(t, 48)
